@@ -6,14 +6,17 @@ import ast
 
 from ..cfg import cfg_of
 from ..model import AnalysisError, call_name, calls_in, dotted, norm, walk_no_nested
-from .. import rules
+from .. import normal, rules
+from .. import conds as cnd
 
 META = {
-    "explanation": "Shape rules (each a necessary condition of the stated clause) on the equipment-side request handlers: list "
-    "replies are built by one in-order pass over the request with exactly one element per requested id on every path "
-    "(empty item for unknown ids, whole table for an empty request); S2F15 validates every entry before the first write, "
-    "compares both bounds unconditionally and applies only under EAC 0; S5F1 is sent exactly under the alarm's current "
-    "enabled flag and only on a state change; S5F3/S5F5/S5F7 touch and list the right alarms.",
+    "explanation": "Shape rules (each a necessary condition of the stated clause) on the equipment-side request handlers, "
+    "evaluated on a normal form of each handler (extracted helpers inlined, comprehensions spelled as loops, conditional "
+    "expressions as if/else, once-assigned pure aliases replaced, branch conditions canonicalised): list replies are "
+    "built by one in-order pass over the request with exactly one element per requested id on every path (empty item "
+    "for unknown ids, whole table for an empty request); S2F15 validates every entry before the first write, compares "
+    "both bounds unconditionally and applies only under EAC 0; S5F1 is sent exactly under the alarm's current enabled "
+    "flag and only on a state change; S5F3/S5F5/S5F7 touch and list the right alarms.",
     "decides": [
         "C13.P1 S1F3/S1F11/S2F13/S2F29/S5F5: one reply element per requested id, in request order, on every path; unknown id => empty-item form; empty request => all entries in table order; the secondary carries the built list",
         "C13.P2 S2F15: every _set_ec_value is dominated by `eac == 0` evaluated after the complete validation loop; the validation loop writes nothing but EAC; both bounds are compared (strict) whenever they are declared, without further conditions; unknown id => EAC 1; the reply carries that EAC",
@@ -32,14 +35,45 @@ LIST_HANDLERS = [
     ("EquipmentConstantsCapability", "_on_s02f29", (2, 30), "self._equipment_constants", None),
 ]
 
+GETTERS = {"self._get_sv_value", "self._get_ec_value"}
 
-def _decoded_var(f):
-    for st in rules.func_stmts(f.node):
+
+def _decoded_var(fn):
+    for st in rules.func_stmts(fn):
         if isinstance(st, ast.Assign) and isinstance(st.value, ast.Call) and (call_name(st.value) or "").endswith("streams_functions.decode") and isinstance(st.targets[0], ast.Name):
-            param = f.node.args.args[2].arg
+            param = fn.args.args[2].arg
             if st.value.args and norm(st.value.args[0]) == param:
                 return st.targets[0].id
     return None
+
+
+def _in_loop(cfg, loop, n) -> bool:
+    return n is not loop and cfg.path_exists(rules.branch_marker(loop, "true"), n, avoid=[loop])
+
+
+def _appends(cfg, loop=None):
+    """[(node, call, list name)] for `<name>.append(x)` statements (inside loop when given)."""
+    out = []
+    for n in cfg.real_nodes():
+        for c in n.calls:
+            cn = call_name(c) or ""
+            if cn.endswith(".append") and len(c.args) == 1 and (loop is None or _in_loop(cfg, loop, n)):
+                out.append((n, c, cn.rsplit(".", 1)[0]))
+    return out
+
+
+def _reply_lists(cfg, S, F):
+    """(return nodes, names carried) for `return self.stream_function(S, F)(<name>)`."""
+    rets = [n for n in cfg.real_nodes() if isinstance(n.ast, ast.Return)]
+    names = set()
+    ok = bool(rets)
+    for r in rets:
+        v = r.ast.value
+        if isinstance(v, ast.Call) and isinstance(v.func, ast.Call) and (call_name(v.func) or "").endswith("stream_function") and [norm(a) for a in v.func.args] == [str(S), str(F)] and len(v.args) == 1:
+            names.add(norm(v.args[0]))
+        else:
+            ok = False
+    return rets, names, ok and len(names) == 1
 
 
 def check_list_handlers(ctx):
@@ -48,62 +82,55 @@ def check_list_handlers(ctx):
         f = repo.method(cname, mname, inherited=False)
         ctx.touch(f)
         q = f.qualname
-        fn = f.node
+        fn = normal.normalised(ctx, f, keep=GETTERS and {g.split(".")[1] for g in GETTERS})
         cfg = cfg_of(fn)
-        fv = _decoded_var(f)
+        fv = _decoded_var(fn)
         ctx.require(fv is not None, f"{q}: `function = ...decode(message)` not found")
+        rets, names, ok = _reply_lists(cfg, S, F)
+        ctx.ob("C13.P1", q, ok, f"the reply is S{S}F{F} carrying the built list" if ok else f"returns {[norm(r.ast.value) for r in rets]}", key="reply", where=f.where)
+        if not ok:
+            continue
+        resp = next(iter(names))
         fors = [n for n in cfg.nodes if n.kind == "iter" and norm(n.ast.iter) == fv]
         ok = len(fors) == 1
-        ctx.ob("C13.P1", q, ok, "the reply is built by one pass over the request" if ok else f"{len(fors)} loops over the request (expected one)", key="one-pass", where=f.where)
+        ctx.ob("C13.P1", q, ok, "the reply is built by one pass over the request, in request order" if ok else f"{len(fors)} loops over the request `{fv}` (expected one, iterating the request itself)", key="one-pass", where=f.where)
         if not ok:
             continue
         L = fors[0]
         loopvar = L.ast.target.id if isinstance(L.ast.target, ast.Name) else None
-        appends = [n for n in cfg.real_nodes() if any(c.endswith(".append") for c in n.call_names()) and cfg.path_exists(rules.branch_marker(L, "true"), n, avoid=[L])]
-        lists = {call_name(c).rsplit(".", 1)[0] for n in appends for c in n.calls if (call_name(c) or "").endswith(".append")}
-        counts = cfg.loop_iteration_counts(L, lambda n: n in appends, no_exc=True)
-        ok = bool(counts) and all(v == (1, 1) for v in counts.values()) and len(lists) == 1
+        apps = [(n, c) for n, c, lst in _appends(cfg, L) if lst == resp]
+        other_lists = sorted({lst for n, c, lst in _appends(cfg, L) if lst != resp})
+        counts = cfg.loop_iteration_counts(L, lambda n: any(n is a for a, _ in apps), no_exc=True)
+        ok = bool(counts) and all(v == (1, 1) for v in counts.values()) and not other_lists
         ctx.ob("C13.P1", q, ok, "exactly one reply element is appended per requested id on every path" if ok else
-               f"reply elements appended per requested id: {counts} into {sorted(lists)} - an id is skipped or answered twice, so the reply no longer lines up with the request", key="one-per-id", where=f.where)
-        if len(lists) != 1:
-            continue
-        resp = next(iter(lists))
+               f"reply elements appended to `{resp}` per requested id: {counts}{' (also appends to ' + str(other_lists) + ')' if other_lists else ''} - an id is skipped or answered twice, so the reply no longer lines up with the request", key="one-per-id", where=f.where)
         # known / unknown branches
-        for n in appends:
-            conds = [(norm(t), v) for t, v in cfg.dominating_conditions(n)]
-            unknown = (f"{loopvar} not in {table}", True) in conds or (f"{loopvar} in {table}", False) in conds
-            known = (f"{loopvar} not in {table}", False) in conds or (f"{loopvar} in {table}", True) in conds
-            call = next(c for c in n.calls if (call_name(c) or "").endswith(".append"))
+        for n, call in apps:
+            known = cnd.holds(cfg, n, f"{loopvar} in {table}")
+            unknown = cnd.holds(cfg, n, f"{loopvar} not in {table}")
             arg = call.args[0]
             if unknown:
                 ok = _is_empty_form(arg, loopvar)
                 ctx.ob("C13.P1", q, ok, "an unknown id is answered with the empty-item form" if ok else f"unknown id is answered with `{norm(arg)[:80]}`", key="unknown-form", where=f.where)
             elif known:
-                ok = _uses_entry_of(fn, arg, table, loopvar, getter)
+                ok = _uses_entry(arg, f"{table}[{loopvar}]", getter)
                 ctx.ob("C13.P1", q, ok, "a known id is answered from its own table entry" if ok else f"known id is answered with `{norm(arg)[:80]}`, not derived from {table}[{loopvar}]", key="known-form", where=f.where)
             else:
                 ctx.ob("C13.P1", q, False, f"`{n.text()[:80]}` is appended without distinguishing known from unknown ids", key="branch", where=f.where)
         # empty request => all in table order
-        allb = [n for n in cfg.real_nodes() if isinstance(n.ast, ast.Assign) and norm(n.ast.targets[0]) == resp and isinstance(n.ast.value, ast.ListComp)]
         ok = False
-        for n in allb:
-            comp = n.ast.value
-            conds = [(norm(t), v) for t, v in cfg.dominating_conditions(n)]
-            if (f"len({fv}) == 0", True) in conds or (f"not {fv}", True) in conds:
-                g = comp.generators[0]
-                ok = len(comp.generators) == 1 and not g.ifs and norm(g.iter) == f"{table}.values()"
-        ctx.ob("C13.P1", q, ok, "an empty request lists every table entry, unfiltered, in table order" if ok else "the empty-request branch does not list all entries of the table unfiltered", key="empty-all", where=f.where)
-        # loop runs only for non-empty requests and in request order (no sorted/reversed/set)
-        ok = isinstance(L.ast.iter, ast.Name)
-        ctx.ob("C13.P1", q, ok, "ids are visited in request order" if ok else f"the loop iterates `{norm(L.ast.iter)}`", key="order", where=f.where)
-        rets = [n for n in cfg.real_nodes() if isinstance(n.ast, ast.Return)]
-        ok = len(rets) == 1 and _is_sf_instance(rets[0].ast.value, S, F, resp)
-        ctx.ob("C13.P1", q, ok, f"the reply is S{S}F{F} carrying the built list" if ok else f"returns `{norm(rets[0].ast.value) if rets else None}`", key="reply", where=f.where)
-
-
-def _is_sf_instance(expr, S, F, arg_txt) -> bool:
-    return (isinstance(expr, ast.Call) and isinstance(expr.func, ast.Call) and (call_name(expr.func) or "").endswith("stream_function")
-            and [norm(a) for a in expr.func.args] == [str(S), str(F)] and len(expr.args) == 1 and norm(expr.args[0]) == arg_txt)
+        why = "no loop over the whole table under an empty request"
+        for A in [n for n in cfg.nodes if n.kind == "iter" and norm(n.ast.iter) == f"{table}.values()" and isinstance(n.ast.target, ast.Name)]:
+            if not cnd.holds(cfg, A, f"not {fv}"):
+                continue
+            av = A.ast.target.id
+            aapps = [(n, c) for n, c, lst in _appends(cfg, A) if lst == resp]
+            cts = cfg.loop_iteration_counts(A, lambda n: any(n is a for a, _ in aapps), no_exc=True)
+            unfiltered = bool(cts) and all(v == (1, 1) for v in cts.values())
+            forms = all(_uses_entry(c.args[0], av, getter) for _, c in aapps)
+            ok = unfiltered and forms and bool(aapps)
+            why = "entries are filtered or answered twice" if not unfiltered else "an entry is not answered from itself"
+        ctx.ob("C13.P1", q, ok, "an empty request lists every table entry, unfiltered, in table order" if ok else f"the empty-request branch does not list all entries of the table unfiltered ({why})", key="empty-all", where=f.where)
 
 
 def _is_empty_form(arg, loopvar) -> bool:
@@ -117,13 +144,13 @@ def _is_empty_form(arg, loopvar) -> bool:
     return False
 
 
-def _uses_entry_of(fn, arg, table, loopvar, getter) -> bool:
-    entry_vars = {t.id for st in rules.func_stmts(fn) if isinstance(st, ast.Assign) and norm(st.value) == f"{table}[{loopvar}]" for t in st.targets if isinstance(t, ast.Name)}
-    names = {n.id for n in ast.walk(arg) if isinstance(n, ast.Name)}
-    direct = f"{table}[{loopvar}]" in norm(arg)
+def _uses_entry(arg, entry_text, getter) -> bool:
+    """The element is `getter(entry)` (value replies) or a record whose every field reads the entry (name lists)."""
     if getter:
-        return isinstance(arg, ast.Call) and call_name(arg) == getter and len(arg.args) == 1 and (norm(arg.args[0]) in entry_vars or norm(arg.args[0]) == f"{table}[{loopvar}]")
-    return bool(names & entry_vars) or direct
+        return isinstance(arg, ast.Call) and call_name(arg) == getter and len(arg.args) == 1 and norm(arg.args[0]) == entry_text
+    if isinstance(arg, ast.Dict):
+        return bool(arg.values) and all(norm(v).startswith(entry_text + ".") or norm(v) == entry_text for v in arg.values)
+    return entry_text in norm(arg)
 
 
 def check_s02f15(ctx):
@@ -131,35 +158,32 @@ def check_s02f15(ctx):
     f = repo.method("EquipmentConstantsCapability", "_on_s02f15", inherited=False)
     ctx.touch(f)
     q = f.qualname
-    fn = f.node
+    fn = normal.normalised(ctx, f, keep={"_set_ec_value"})
     cfg = cfg_of(fn)
-    fv = _decoded_var(f)
+    fv = _decoded_var(fn)
     ctx.require(fv is not None, f"{q}: decode not found")
     loops = [n for n in cfg.nodes if n.kind == "iter" and norm(n.ast.iter) == fv]
     sets = [n for n in cfg.real_nodes() if any(c == "self._set_ec_value" for c in n.call_names())]
     ctx.require(len(sets) >= 1 and len(loops) >= 1, f"{q}: apply step / loops not found")
     # EAC variable = what is returned
-    rets = [n for n in cfg.real_nodes() if isinstance(n.ast, ast.Return)]
-    eacs = {norm(r.ast.value.args[0]) for r in rets if isinstance(r.ast.value, ast.Call) and r.ast.value.args}
-    ok = len(rets) == 1 and len(eacs) == 1 and _is_sf_instance(rets[0].ast.value, 2, 16, next(iter(eacs)))
+    rets, eacs, ok = _reply_lists(cfg, 2, 16)
     ctx.ob("C13.P2", q, ok, "the reply is S2F16 carrying the validation result" if ok else f"returns {[r.text() for r in rets]}", key="reply", where=f.where)
     if not ok:
         return
     eac = next(iter(eacs))
     # every write happens after all validation
-    val_loops = [l for l in loops if not any(cfg.path_exists(rules.branch_marker(l, "true"), s, avoid=[l]) for s in sets)]
+    val_loops = [l for l in loops if not any(_in_loop(cfg, l, s) for s in sets)]
     app_loops = [l for l in loops if l not in val_loops]
     ok = len(val_loops) >= 1 and len(app_loops) >= 1 and all(cfg.dominates(rules.branch_marker(v, "false"), s) for v in val_loops for s in sets)
     ctx.ob("C13.P2", q, ok, "no constant is written before the whole request has been validated" if ok else
            "a constant can be written while later entries of the same S2F15 are still unvalidated: a request that is refused has already changed the earlier constants (all-or-none is broken)",
            key="validate-all-first", where=f.where)
     for s in sets:
-        conds = [(norm(t), v) for t, v in cfg.dominating_conditions(s)]
-        ok = (f"{eac} == 0", True) in conds or (f"{eac} != 0", False) in conds or (f"not {eac}", True) in conds
-        ctx.ob("C13.P2", q, ok, "constants are written only under EAC 0" if ok else f"_set_ec_value runs under {conds}, not under `{eac} == 0`", key="apply-guard", where=f.where)
+        ok = cnd.holds(cfg, s, f"{eac} == 0")
+        ctx.ob("C13.P2", q, ok, "constants are written only under EAC 0" if ok else f"_set_ec_value runs under [{cnd.describe(cfg, s)}], not under `{eac} == 0`", key="apply-guard", where=f.where)
     # validation loop writes only eac
     for v in val_loops:
-        body_nodes = [n for n in cfg.real_nodes() if cfg.path_exists(rules.branch_marker(v, "true"), n, avoid=[v]) and n is not v]
+        body_nodes = [n for n in cfg.real_nodes() if _in_loop(cfg, v, n)]
         writes = set()
         for n in body_nodes:
             if isinstance(n.ast, (ast.Assign, ast.AugAssign)):
@@ -174,41 +198,39 @@ def check_s02f15(ctx):
         ctx.ob("C13.P2", q, not writes, "the validation pass has no side effect on the constants" if not writes else f"the validation pass writes {sorted(writes)}", key="validation-pure", where=f.where)
         breaks = [n for n in body_nodes if isinstance(n.ast, ast.Break)]
         ctx.ob("C13.P2", q, True, "validation visits the entries (an early break only shortens the check)", key="validation-loop", where=f.where, breaks=len(breaks))
-        # bounds
+        # bounds: `eac = 3` under exactly {bound declared, value beyond bound} (+ the id is known)
         assigns = [n for n in body_nodes if isinstance(n.ast, ast.Assign) and norm(n.ast.targets[0]) == eac]
         bound_tests = {"min": None, "max": None}
         for n in assigns:
-            val = n.ast.value.value if isinstance(n.ast.value, ast.Constant) else None
-            conds = cfg.dominating_conditions(n)
-            inner = [(t, tv) for t, tv in conds if any(t is x or _contains(t, x) for x in [t]) and _within_loop(cfg, v, t)]
-            txts = [(norm(t), tv) for t, tv in inner]
-            if val == 3:
-                for kind, attr, op in (("min", "min_value", ast.Lt), ("max", "max_value", ast.Gt)):
-                    hit = [(t, tv) for t, tv in inner if f".{attr}" in norm(t)]
-                    if not hit:
-                        continue
-                    t, tv = hit[-1]
-                    parts = t.values if isinstance(t, ast.BoolOp) and isinstance(t.op, ast.And) else [t]
-                    cmp_ok = any(isinstance(p, ast.Compare) and len(p.ops) == 1 and isinstance(p.ops[0], op) and f".{attr}" in norm(p.comparators[0]) and ".ECV" in rules.expand(fn, p.left) for p in parts)
-                    guard_only_none = all((isinstance(p, ast.Compare) and ((isinstance(p.ops[0], ast.IsNot) and f".{attr} is not None" in norm(p)) or isinstance(p.ops[0], op))) for p in parts)
-                    extra = [x for x in txts if x[0] != norm(t) and not (" not in self._equipment_constants" in x[0] or " in self._equipment_constants" in x[0])]
-                    bound_tests[kind] = (cmp_ok and tv and guard_only_none and not extra, norm(t), extra)
+            if not (isinstance(n.ast.value, ast.Constant) and n.ast.value.value == 3):
+                continue
+            fs = cnd.facts(cfg, n, within=v.ast)
+            for kind, attr in (("min", "min_value"), ("max", "max_value")):
+                if kind == "min":  # ecv < c.min_value
+                    cmp_atoms = [(t, p) for t, p in fs if " < " in t and t.split(" < ", 1)[1].endswith("." + attr) and ".ECV" in t.split(" < ", 1)[0]]
+                else:  # ecv > c.max_value  ==  c.max_value < ecv
+                    cmp_atoms = [(t, p) for t, p in fs if " < " in t and t.split(" < ", 1)[0].endswith("." + attr) and ".ECV" in t.split(" < ", 1)[1]]
+                if not cmp_atoms:
+                    continue
+                strict = all(p for _, p in cmp_atoms)
+                extra = sorted((t, p) for t, p in fs if (t, p) not in cmp_atoms and not (t.endswith(f".{attr} is None") and not p) and not t.endswith(" in self._equipment_constants"))
+                bound_tests[kind] = (strict and not extra, cmp_atoms[0][0], extra)
         for kind, res in bound_tests.items():
             ok = res is not None and res[0]
             ctx.ob("C13.P2", q, ok,
                    f"a value {'below the declared minimum' if kind == 'min' else 'above the declared maximum'} sets EAC 3 whenever the bound is declared" if ok else
                    (f"no strict comparison of the new value with the declared {kind} bound sets EAC 3" if res is None else
-                    f"the {kind}-bound check `{res[1]}` is subject to further conditions {res[2]}: some values (e.g. text or multi-value items) bypass the range check and leave the constant outside its limits"),
+                    f"the {kind}-bound check `{res[1]}` is not strict or is subject to further conditions [{cnd.show(res[2])}]: some values (e.g. text or multi-value items, or the bound itself) bypass the range check and leave the constant outside its limits"),
                    key="bound " + kind, where=f.where)
         unk = [n for n in assigns if isinstance(n.ast.value, ast.Constant) and n.ast.value.value == 1]
-        ok = any(any((" not in self._equipment_constants" in norm(t) and tv) or (" in self._equipment_constants" in norm(t) and " not in " not in norm(t) and not tv) for t, tv in cfg.dominating_conditions(n)) for n in unk)
+        ok = any(any(t.endswith(" in self._equipment_constants") and not p for t, p in cnd.facts(cfg, n)) for n in unk)
         ctx.ob("C13.P2", q, ok, "an unknown ECID sets EAC 1" if ok else "no EAC 1 for an unknown ECID", key="unknown-ecid", where=f.where)
     # apply loop writes every entry with its own value
     for s in sets:
         c = next(c for c in s.calls if call_name(c) == "self._set_ec_value")
         lv = None
         for l in app_loops:
-            if cfg.path_exists(rules.branch_marker(l, "true"), s, avoid=[l]) and isinstance(l.ast.target, ast.Name):
+            if _in_loop(cfg, l, s) and isinstance(l.ast.target, ast.Name):
                 lv = l.ast.target.id
         ok = lv is not None and len(c.args) == 2 and rules.expand(fn, c.args[0]) in (f"self._equipment_constants[{lv}.ECID]", f"self._equipment_constants[{lv}.ECID.get()]", f"self.equipment_constants[{lv}.ECID.get()]", f"self.equipment_constants[{lv}.ECID]") and rules.expand(fn, c.args[1]) == f"{lv}.ECV.get()"
         ctx.ob("C13.P2", q, ok, "each entry's constant receives that entry's value" if ok else f"`{norm(c)}` does not write entry.ECV to the constant named by entry.ECID", key="apply-args", where=f.where)
@@ -225,12 +247,15 @@ def check_s02f15(ctx):
     ctx.ob("C13.P2", sv.qualname, ok, "_set_ec_value stores the value (or hands it to the user's update hook) on every path" if ok else "_set_ec_value has a path that neither stores the value nor calls the update hook", where=sv.where)
 
 
-def _contains(outer, inner) -> bool:
-    return any(n is inner for n in ast.walk(outer))
+def _alarm_entry_forms(p):
+    return (f"self.alarms[{p}]", f"self._alarms[{p}]")
 
 
-def _within_loop(cfg, loop_node, test_expr) -> bool:
-    return any(n is test_expr for n in ast.walk(loop_node.ast))
+def _alarm_body(elt, lv):
+    """{ALID, ALTX, ALCD} of a record expression, normalised text."""
+    if not isinstance(elt, ast.Dict):
+        return None
+    return {k.value: norm(v) for k, v in zip(elt.keys, elt.values) if isinstance(k, ast.Constant)}
 
 
 def check_alarms(ctx):
@@ -239,87 +264,103 @@ def check_alarms(ctx):
         f = repo.method("AlarmCapability", mname, inherited=False)
         ctx.touch(f)
         q = f.qualname
-        cfg = cfg_of(f.node)
-        p = f.node.args.args[1].arg
-        entry = f"self.alarms[{p}]"
+        fn = normal.normalised(ctx, f)
+        cfg = cfg_of(fn)
+        p = fn.args.args[1].arg
+        entries = _alarm_entry_forms(p)
         sends = [(n, c) for n in cfg.real_nodes() for c in n.calls if call_name(c) in ("self.send_and_waitfor_response", "self.send_stream_function")]
         ok = len(sends) == 1
         ctx.ob("C13.P3", q, ok, "one S5F1 send site" if ok else f"{len(sends)} send sites", key="one-send", where=f.where)
         if not ok:
             continue
         n, c = sends[0]
-        conds = cfg.dominating_conditions(n)
-        txts = [(norm(t), v) for t, v in conds]
-        enabled_ok = (f"{entry}.enabled", True) in txts or (f"self._alarms[{p}].enabled", True) in txts
-        other = [(t, v) for t, v in txts if ".enabled" not in t and ".set" not in t and " not in self.alarms" not in t and " not in self._alarms" not in t]
+        fs = cnd.facts(cfg, n)
+        is_enabled = lambda t: any(t == e + ".enabled" for e in entries)  # noqa: E731
+        is_set = lambda t: any(t == e + ".set" for e in entries)  # noqa: E731
+        is_member = lambda t: t in (f"{p} in self.alarms", f"{p} in self._alarms")  # noqa: E731
+        enabled_ok = any(is_enabled(t) and pol for t, pol in fs)
+        other = sorted((t, pol) for t, pol in fs if not (is_enabled(t) or is_set(t) or is_member(t)))
         ctx.ob("C13.P3", q, enabled_ok and not other, "S5F1 is sent iff the alarm is enabled at that moment" if (enabled_ok and not other) else
-               f"the S5F1 send is guarded by {txts}: it must depend on the alarm's current `enabled` flag alone (a report for a disabled alarm, or none for an enabled one, follows an S5F3 between set and clear)",
+               f"the S5F1 send is guarded by [{cnd.show(fs)}]: it must depend on the alarm's current `enabled` flag alone (a report for a disabled alarm, or none for an enabled one, follows an S5F3 between set and clear)",
                key="enabled-guard", where=f.where)
-        # only on change
-        want_early = (f"{entry}.set", True) if newval else (f"not {entry}.set", True)
-        early = [r for r in cfg.real_nodes() if isinstance(r.ast, ast.Return) and want_early in [(norm(t), v) for t, v in cfg.dominating_conditions(r)]]
-        ok = bool(early) and not cfg.path_exists(early[0], n) and all(cfg.path_exists(cfg.entry, n, avoid=[]) for _ in [0])
-        no_change_path = any(v for t, v in txts if t == want_early[0] and v == want_early[1])
-        ctx.ob("C13.P3", q, ok and not no_change_path, "nothing is sent when the alarm already is in the requested state" if (ok and not no_change_path) else "S5F1 can be sent although the set state does not change", key="only-on-change", where=f.where)
+        # only on change: the send (and the state write) happen only where the alarm is known NOT to be in the new state
+        ok = any(is_set(t) and pol == (not newval) for t, pol in fs)
+        ctx.ob("C13.P3", q, ok, "nothing is sent when the alarm already is in the requested state" if ok else "S5F1 can be sent although the set state does not change", key="only-on-change", where=f.where)
         # body
         a0 = c.args[0] if c.args else None
         sf_ok = isinstance(a0, ast.Call) and isinstance(a0.func, ast.Call) and [norm(x) for x in a0.func.args] == ["5", "1"] and a0.args and isinstance(a0.args[0], ast.Dict)
         body = {k.value: v for k, v in zip(a0.args[0].keys, a0.args[0].values)} if sf_ok else {}
         alcd = norm(body.get("ALCD")) if "ALCD" in body else ""
-        bit_ok = (("ALCD.ALARM_SET" in alcd and "|" in alcd) if setbit else ("ALARM_SET" not in alcd)) and f"{entry}.code" in alcd
-        ok = sf_ok and bit_ok and norm(body.get("ALID")) == p and norm(body.get("ALTX")) == f"{entry}.text"
+        bit_ok = (("ALCD.ALARM_SET" in alcd and "|" in alcd) if setbit else ("ALARM_SET" not in alcd)) and any(e + ".code" in alcd for e in entries)
+        ok = sf_ok and bit_ok and norm(body.get("ALID")) == p and norm(body.get("ALTX")) in [e + ".text" for e in entries]
         ctx.ob("C13.P3", q, ok, f"S5F1 carries ALID, ALTX and ALCD with bit 7 {'set' if setbit else 'clear'}" if ok else f"S5F1 body is {norm(a0)[:120] if a0 is not None else None}", key="body", where=f.where)
-        # state write after, on every non-early path
-        writes = [w for w in cfg.real_nodes() if isinstance(w.ast, ast.Assign) and norm(w.ast.targets[0]) in (f"{entry}.set", f"self._alarms[{p}].set") and norm(w.ast.value) == str(newval)]
-        ok = len(writes) == 1 and not cfg.path_exists(n, cfg.exit, avoid=writes, no_exc=True)
+        # state write: every normal path ends with the state written, or never left the "already in that state" branch
+        writes = [w for w in cfg.real_nodes() if isinstance(w.ast, ast.Assign) and norm(w.ast.targets[0]) in [e + ".set" for e in entries] and norm(w.ast.value) == str(newval)]
+        already = [m for m in cfg.nodes if any(is_set(t) and pol == newval for t, pol in cnd.facts(cfg, m))]
+        ok = len(writes) == 1 and not cfg.path_exists(cfg.entry, cfg.exit, avoid=writes + already, no_exc=True) and not cfg.path_exists(n, cfg.exit, avoid=writes, no_exc=True)
         ctx.ob("C13.P3", q, ok, f"the alarm's set state becomes {newval}" if ok else f"the set state is not updated to {newval} on every path", key="state-write", where=f.where)
         unk = [r for r in cfg.real_nodes() if isinstance(r.ast, ast.Raise)]
-        ok = any(any(" not in self.alarms" in norm(t) and v for t, v in cfg.dominating_conditions(r)) for r in unk)
+        ok = any(any(is_member(t) and not pol for t, pol in cnd.facts(cfg, r)) for r in unk)
         ctx.ob("C13.P3", q, ok, "an unknown alarm id raises" if ok else "an unknown alarm id is not refused", key="unknown", where=f.where)
     # S5F3
     f = repo.method("AlarmCapability", "_on_s05f03", inherited=False)
     ctx.touch(f)
-    cfg = cfg_of(f.node)
+    fn = normal.normalised(ctx, f)
+    cfg = cfg_of(fn)
     writes = [n for n in cfg.real_nodes() if isinstance(n.ast, ast.Assign) and norm(n.ast.targets[0]).endswith(".enabled")]
     ok = len(writes) == 1
     if ok:
         w = writes[0]
-        conds = [(norm(t), v) for t, v in cfg.dominating_conditions(w)]
-        known = any((" not in self._alarms" in t or " not in self.alarms" in t) and not v for t, v in conds)
+        tgt = norm(w.ast.targets[0])
+        key = tgt[tgt.index("[") + 1:tgt.rindex("]")] if "[" in tgt else None
+        known = key is not None and any(t in (f"{key} in self._alarms", f"{key} in self.alarms") and pol for t, pol in cnd.facts(cfg, w))
         val = norm(w.ast.value)
-        ok = known and "ALED.get() == " in val and "ALED.ENABLE" in val and "alid]" in norm(w.ast.targets[0])
+        ok = known and "ALED.get() == " in val and "ALED.ENABLE" in val and tgt in (f"self.alarms[{key}].enabled", f"self._alarms[{key}].enabled") and "ALID" in rules.expand(fn, ast.parse(key, mode="eval").body)
     ctx.ob("C13.P3", f.qualname, ok, "S5F3 sets the enabled flag of the named, known alarm from ALED" if ok else "S5F3 does not set exactly the named known alarm's enabled flag from ALED == ENABLE", key="s5f3-write", where=f.where)
     errs = [n for n in cfg.real_nodes() if isinstance(n.ast, ast.Assign) and "ACKC5.ERROR" in norm(n.ast.value)]
-    ok = any(any((" not in self._alarms" in norm(t) or " not in self.alarms" in norm(t)) and v for t, v in cfg.dominating_conditions(n)) for n in errs)
+    ok = any(any(t.endswith((" in self._alarms", " in self.alarms")) and not pol for t, pol in cnd.facts(cfg, n)) for n in errs)
     ctx.ob("C13.P3", f.qualname, ok, "an unknown ALID is acknowledged with an error code" if ok else "an unknown ALID is not answered with ACKC5 error", key="s5f3-unknown", where=f.where)
-    # S5F7 filter
-    f = repo.method("AlarmCapability", "_on_s05f07", inherited=False)
-    ctx.touch(f)
-    comps = [n for n in walk_no_nested(f.node) if isinstance(n, ast.ListComp)]
-    ok = len(comps) == 1 and len(comps[0].generators) == 1 and [norm(i) for i in comps[0].generators[0].ifs] == ["self.alarms[alid].enabled"] and "self.alarms.keys()" in norm(comps[0].generators[0].iter)
-    ctx.ob("C13.P3", f.qualname, ok, "S5F8 lists exactly the alarms whose enabled flag is set" if ok else "S5F7 does not filter the alarm table by the enabled flag", key="s5f7-filter", where=f.where)
-    for hname in ("_on_s05f05", "_on_s05f07"):
+    # S5F5 / S5F7: list bodies, filter, order
+    for hname, (S, F) in (("_on_s05f05", (5, 6)), ("_on_s05f07", (5, 8))):
         f = repo.method("AlarmCapability", hname, inherited=False)
-        comps = [n for n in walk_no_nested(f.node) if isinstance(n, ast.ListComp)]
-        ok = False
-        for comp in comps:
-            if isinstance(comp.elt, ast.Dict):
-                body = {k.value: norm(v) for k, v in zip(comp.elt.keys, comp.elt.values)}
-                lv = comp.generators[0].target.id
-                ok = body.get("ALID") == lv and body.get("ALTX") == f"self.alarms[{lv}].text" and "ALARM_SET if" in body.get("ALCD", "") and f"self.alarms[{lv}].set else 0" in body.get("ALCD", "") and f"self.alarms[{lv}].code" in body.get("ALCD", "")
-        ctx.ob("C13.P3", f.qualname, ok, "each listed alarm carries its id, text and ALCD with bit 7 = current set state" if ok else "the alarm list entries do not carry id/text/current set state", key="list-body", where=f.where)
-    f = repo.method("AlarmCapability", "_on_s05f05", inherited=False)
-    ctx.touch(f)
-    comps = [n for n in walk_no_nested(f.node) if isinstance(n, ast.ListComp)]
-    cfg = cfg_of(f.node)
-    ok = len(comps) == 1 and not comps[0].generators[0].ifs and isinstance(comps[0].generators[0].iter, ast.Name)
-    if ok:
-        it = comps[0].generators[0].iter.id
-        alls = [n for n in cfg.real_nodes() if isinstance(n.ast, ast.Assign) and norm(n.ast.targets[0]) == it and "self.alarms.keys()" in norm(n.ast.value)]
-        ok = len(alls) == 1 and (f"len({it}) == 0", True) in [(norm(t), v) for t, v in cfg.dominating_conditions(alls[0])]
-        src = [n for n in cfg.real_nodes() if isinstance(n.ast, ast.Assign) and norm(n.ast.targets[0]) == it and norm(n.ast.value).endswith(".get()")]
-        ok = ok and len(src) == 1
-    ctx.ob("C13.P1", f.qualname, ok, "S5F6 lists exactly the requested alarms in request order (all for an empty request)" if ok else "S5F5 does not answer exactly the requested ids in order", key="s5f5-order", where=f.where)
+        ctx.touch(f)
+        fn = normal.normalised(ctx, f)
+        cfg = cfg_of(fn)
+        rets, names, ok = _reply_lists(cfg, S, F)
+        resp = next(iter(names)) if ok else None
+        loops = [n for n in cfg.nodes if n.kind == "iter" and isinstance(n.ast.target, ast.Name) and any(lst == resp for _, _, lst in _appends(cfg, n))]
+        ok = ok and len(loops) == 1
+        body_ok = filt_ok = order_ok = False
+        if ok:
+            L = loops[0]
+            lv = L.ast.target.id
+            apps = [(n, c) for n, c, lst in _appends(cfg, L) if lst == resp]
+            cts = cfg.loop_iteration_counts(L, lambda n: any(n is a for a, _ in apps), no_exc=True)
+            at_most_one = bool(cts) and all(v[1] == 1 for v in cts.values())
+            exactly_one = bool(cts) and all(v == (1, 1) for v in cts.values())
+            body_ok = bool(apps)
+            for n, c in apps:
+                body = _alarm_body(c.args[0], lv) or {}
+                alcd = body.get("ALCD", "")
+                # ALCD = code | (ALARM_SET if set else 0), spelled as a conditional expression or as two branches
+                cond_bit = ("ALARM_SET if" in alcd and f"self.alarms[{lv}].set else 0" in alcd) or (cnd.holds(cfg, n, f"self.alarms[{lv}].set") and "ALARM_SET" in alcd) or (cnd.holds(cfg, n, f"not self.alarms[{lv}].set") and "ALARM_SET" not in alcd)
+                body_ok = body_ok and body.get("ALID") == lv and body.get("ALTX") == f"self.alarms[{lv}].text" and f"self.alarms[{lv}].code" in alcd and cond_bit
+            if hname == "_on_s05f07":
+                it = norm(L.ast.iter)
+                over_all = it in ("list(self.alarms.keys())", "self.alarms.keys()", "self.alarms", "list(self.alarms)", "self._alarms", "list(self._alarms.keys())", "self._alarms.keys()", "list(self._alarms)")
+                filt_ok = over_all and at_most_one and all(cnd.facts(cfg, n, within=L.ast) == {(f"self.alarms[{lv}].enabled", True)} or cnd.facts(cfg, n, within=L.ast) == {(f"self._alarms[{lv}].enabled", True)} for n, _ in apps)
+            else:
+                # requested ids in request order; all ids for an empty request
+                it = L.ast.iter
+                if isinstance(it, ast.Name):
+                    alls = [n for n in cfg.real_nodes() if isinstance(n.ast, ast.Assign) and norm(n.ast.targets[0]) == it.id and ("self.alarms.keys()" in norm(n.ast.value) or norm(n.ast.value) in ("list(self.alarms)", "list(self._alarms)"))]
+                    src = [n for n in cfg.real_nodes() if isinstance(n.ast, ast.Assign) and norm(n.ast.targets[0]) == it.id and norm(n.ast.value).endswith(".get()")]
+                    order_ok = exactly_one and len(alls) == 1 and cnd.holds(cfg, alls[0], f"not {it.id}") and len(src) == 1 and not cnd.facts(cfg, apps[0][0], within=L.ast)
+        ctx.ob("C13.P3", f.qualname, body_ok, "each listed alarm carries its id, text and ALCD with bit 7 = current set state" if body_ok else "the alarm list entries do not carry id/text/current set state", key="list-body", where=f.where)
+        if hname == "_on_s05f07":
+            ctx.ob("C13.P3", f.qualname, filt_ok, "S5F8 lists exactly the alarms whose enabled flag is set" if filt_ok else "S5F7 does not filter the alarm table by the enabled flag (and nothing else)", key="s5f7-filter", where=f.where)
+        else:
+            ctx.ob("C13.P1", f.qualname, order_ok, "S5F6 lists exactly the requested alarms in request order (all for an empty request)" if order_ok else "S5F5 does not answer exactly the requested ids in order", key="s5f5-order", where=f.where)
 
 
 def check_current_values(ctx):
@@ -327,11 +368,12 @@ def check_current_values(ctx):
     for cname, mname, entry in (("StatusDataCollectionCapability", "_get_sv_value", "status_variable"), ("EquipmentConstantsCapability", "_get_ec_value", "equipment_constant"), ("DataValueCapability", "_get_dv_value", "data_value")):
         f = repo.method(cname, mname, inherited=False)
         ctx.touch(f)
-        p = f.node.args.args[1].arg
-        cfg = cfg_of(f.node)
+        fn = normal.normalised(ctx, f)
+        p = fn.args.args[1].arg
+        cfg = cfg_of(fn)
         plain = [n for n in cfg.real_nodes() if f"{p}.value_type({p}.value)" in n.text()]
         cb = [n for n in cfg.real_nodes() if any(c.startswith("self.on_") and c.endswith("_value_request") for c in n.call_names())]
-        ok = bool(plain) and bool(cb) and any((f"{p}.use_callback", True) in [(norm(t), v) for t, v in cfg.dominating_conditions(n)] for n in cb)
+        ok = bool(plain) and bool(cb) and any(cnd.holds(cfg, n, f"{p}.use_callback") for n in cb) and all(not cnd.holds(cfg, n, f"{p}.use_callback") for n in plain)
         ctx.ob("C13.P4", f.qualname, ok, "the value is the entry's current value (or the user's callback when configured)" if ok else "the reply value is not value_type(entry.value) / the use_callback hook", where=f.where)
 
 
